@@ -256,6 +256,38 @@ def run(ctx):
     inter = [n for n in cp.walk() if n.k in ("BinaryOperator", "CompoundAssignOperator") and n.op in ("=", "+=", "-=") and access_path(n.c[0]) == size_arg
              and cp.dominates(acall[0], n) and cp.dominates(n, mcpy[0])]
     rep.check(not inter, "D3-BOUNDED-COPY", where(cp), "size-unchanged", "no store to the size between allocation and copy", "code_size is modified between allocation and copy")
+    # every other write into the chunk (memset / further memcpy at an offset) stays inside the aligned size: decided by
+    # evaluating offset + length against (max(1,size) + a) & ~a for all sizes 1..4(a+1) and the alignment masks 15, 31, 63
+    from exprval import evaluate as _ev, key_of as _key, NotPure as _NP
+    for c in cp.calls():
+        if c.name not in ("memset", "memcpy", "memmove") or c is mcpy[0]:
+            continue
+        d = strip_casts(c.args()[0])
+        if "orccode->code" not in unparse(d) or "orccode->code_size" == unparse(d):
+            continue
+        off = None
+        if d.k == "BinaryOperator" and d.op == "+":
+            off = d.c[1] if "orccode->code" in unparse(d.c[0]) else d.c[0]
+        ln = c.args()[2]
+        bad = None
+        try:
+            for a_ in (15, 31, 63):
+                for sz in range(1, 4 * (a_ + 1) + 1):
+                    env = {size_arg: sz, "_orc_codemem_alignment": a_}
+                    o = _ev(off, env) if off is not None else 0
+                    l_ = _ev(ln, env)
+                    aligned = (max(1, sz) + a_) & ~a_
+                    if o < 0 or l_ < 0 or o + l_ > aligned:
+                        bad = (sz, a_, o, l_, aligned)
+                        break
+                if bad:
+                    break
+        except _NP as e:
+            raise AnalysisBroken("compile driver: cannot evaluate the extent of `%s`: %s" % (unparse(c)[:80], e))
+        rep.check(bad is None, "D3-BOUNDED-COPY", where(cp), "%s-extent" % c.name,
+                  "`%s` stays inside the chunk for every code size" % unparse(c)[:60],
+                  "`%s` writes past the chunk: for code size %s and alignment mask %s it covers [%s, %s) but the chunk ends at %s -- the first bytes "
+                  "of the next live function are overwritten" % ((unparse(c)[:70],) + (bad[0], bad[1], bad[2], bad[2] + bad[3], bad[4]) if bad else ("",) * 6), line=c.line)
     # rounding never shrinks: the size requested from the free-chunk search is (max(1,size) + a) & ~a
     rq = resolved(req[0].args()[0])
     txt = unparse(rq)
